@@ -613,8 +613,12 @@ def gen_take_scenario(ctx: Ctx):
         for name in rng.sample(["extra", "ex2"], rng.randint(1, 2)):
             absent = set(rng.sample(range(W), rng.randint(1, W - 1)))
             extras[name] = {str(r): gen_objspec(rng, small=True) for r in range(W) if r not in absent}
-    mode = rng.choice(["all", "m/*", "exact", "exact", "none", "m/*"])
-    if mode == "all":
+    mode = rng.choice(["all", "m/*", "exact", "exact", "none", "m/*", "overlap", "overlap"])
+    if mode == "overlap":
+        # several patterns matching the same path (a path must be counted once however many globs match it)
+        k0 = rng.choice(keys)
+        globs = rng.sample(["m/*", "m/" + k0, "m/" + k0[0] + "*", "*/" + k0, "m/**"], rng.randint(2, 4))
+    elif mode == "all":
         globs = ["**"]
     elif mode == "m/*":
         globs = ["m/*"]
@@ -843,7 +847,9 @@ def gen_paths_scenario(ctx: Ctx):
         keys.append(ks)
     sh = rng.choice([0.0, 0.0, 0.1])
     sharded = [[k for k in ks if rng.random() < sh] for ks in keys]
-    globs = rng.choice([["**"], ["**"], ["m/*"], ["m/**"], ["*"], ["m/w", "opt/lr"], [], ["m/?", "opt/*"], ["[m]/w"], ["m/w*", "x"]])
+    globs = rng.choice([["**"], ["**"], ["m/*"], ["m/**"], ["*"], ["m/w", "opt/lr"], [], ["m/?", "opt/*"], ["[m]/w"], ["m/w*", "x"],
+                        # overlapping patterns: several globs match one path
+                        ["m/*", "m/w"], ["m/**", "*/w", "m/w*"], ["**", "m/*"], ["opt/*", "opt/lr", "*/lr"], ["m/?", "m/w", "m/b", "*"]])
     return {"kind": "paths", "W": W, "keys": keys, "sharded": sharded, "globs": globs}
 
 
